@@ -21,7 +21,7 @@ REQUIRED_MONITORS = ('em_law_contract', 'equivalences_vs_nearest_anchor')
 REQUIRED_CLASSES = ('geometry:generic', 'geometry:linear-z', 'geometry:linear-x', 'geometry:linear-int',
                     'geometry:linear-moved', 'geometry:partial-collinear', 'geometry:planar-xy', 'geometry:lattice',
                     'anchor:collinear', 'anchor:generic', 'scale:one', 'scale:uniform', 'placement:far',
-                    'placement:on-atoms', 'shipped-pair')
+                    'placement:on-atoms', 'shipped-pair', 'sequence:construction-object-after-other-calls')
 RULE = ('(reference, target, s): reference 3..40 atoms (tree/chain/star/ring/cyclic/complete) x geometry class x target '
         '1..120 atoms x placement class x s in {1, 0.5, U(0.02,2)}; plus shipped pairs. Non-trivial: >= 2 anchors and '
         'target atoms assigned to >= 2 anchors. distinct = distinct (n, degree-sequence hash, geometry, placement, s class, '
@@ -108,6 +108,21 @@ def run_gen(ctx, case):
             out = emap(refm if rng.random() < 0.5 else refm.copy())
         except Exception as exc:  # noqa
             ctx.violation(f'map-raises:{type(exc).__name__}:{info["geometry"]}', str(exc)[:200], witness=w)
+            continue
+        # the law must also hold on the construction configuration after the map has been used on
+        # other configurations, whether the construction object itself or a copy is passed
+        try:
+            R, t = gen.random_rotation(rng), rng.normal(size=3) * 5
+            emap(emmon.with_positions(refm, pos @ R.T + t))
+            emap(refm)
+            other = refm.copy()
+            other.atoms_positions = pos @ R.T
+            emap(other)
+            other.atoms_positions = pos.copy()          # same object, back on the construction coordinates
+            emap(other)
+            ctx.hit('sequence:construction-object-after-other-calls')
+        except Exception as exc:  # noqa
+            ctx.violation(f'map-raises-in-sequence:{type(exc).__name__}:{info["geometry"]}', str(exc)[:200], witness=w)
             continue
         ctx.count('evaluations')
         ctx.hit('geometry:' + info['geometry'])
